@@ -186,6 +186,32 @@ def run(res, tier, rng, table_diffs=()):
             res.violation("an integer literal was not read as the number written (or an out-of-range literal was accepted)",
                           dict(kind="control", input=t, expected=want, impl=na2[k], impl_in_list=na2[len(spell) + k], model=nm2[k]))
             break
+    # float literals keep their spelling incl. the sign written in front of them (round 10): both zeros, in every order, observed by
+    # division, text and comparison
+    zs = []
+    for pre in ["", "0.0;", "-0.0;", "stel p = 0.0; stel q = -0.0;", "stel q = -0.0; stel p = 0.0;", "functie g() { -0.0 }; functie h() { 0.0 };", "0.; -0.00;", "-1.5; 1.5;"]:
+        for z, want in [("0.0", "+"), ("-0.0", "-"), ("0.", "+"), ("-0.00", "-"), ("-(0.0)", "-"), ("1.5", "+"), ("-1.5", "-")]:
+            zs.append((pre + " [1.0 / %s > 0.0, string(%s)]" % (z, z), want))
+    za = core.impl(["eval 1000 " + hx(t) for t, _ in zs])
+    zm = core.model(["eval 1000 " + hx(t) for t, _ in zs])
+    for (t, want), a, m in zip(zs, za, zm):
+        res.seen("Z" + t)
+        res.count("signed-float-literal")
+        sign_ok = a.startswith("ok a:[b:ja ") if want == "+" else a.startswith("ok a:[b:nee ")
+        if a != m or not sign_ok:
+            res.violation("a float literal was not read with the sign written (a zero literal took the sign of another zero literal of the program)",
+                          dict(kind="control", input=t, expected=m.split(" | ")[0], impl=a, model=m))
+            break
+    from .. import gen2 as _g2
+    fl = _g2.float_spelling_programs()
+    fa = core.impl(["eval 1000 " + hx(t) for t in fl])
+    fm2 = core.model(["eval 1000 " + hx(t) for t in fl])
+    for t, a, m in zip(fl, fa, fm2):
+        res.seen("L" + t)
+        res.count("float-spelling")
+        if a != m:
+            res.violation("a float literal was not read as the correctly rounded value of its spelling", dict(kind="control", input=t, expected=m, impl=a, model=m))
+            break
     # directed: inputs that used to be silently dropped must be rejected
     for src in ["1 № 2", "5 \"abc", "1 & 2", "1 | 2", "x # y", "\"a\\\\\" 1"]:
         r = core.impl(["eval 1000 " + hx(src)])[0]
